@@ -5,6 +5,7 @@ envelope at the same path or the cache / payload file - as predicted by an indep
 two fullmatch selections; no new names appear; integer-keyed members are byte-identical at every level.
 """
 import os
+import zlib
 import re
 
 from .. import drive
@@ -198,6 +199,17 @@ def case_cache(rec, case):
     model(root.bytes, omit, dep, "$", extracted, kept, problems)
     uris = [k for k, _ in extracted]
     dup_expected = len(set(uris)) != len(uris)
+    if zlib.crc32(f"rebuild/{case['n']}".encode()) % 5 == 0 and route != "sub":
+        # incremental rebuild: an EARLIER build of the same hierarchy, in which every integrated payload had other bytes of
+        # the same length, already wrote its results to the same two output paths
+        earlier = other_payload_bytes(root.bytes)
+        if earlier != root.bytes:
+            with open(src, "wb") as fh:
+                fh.write(earlier)
+            if run_cache(route, src, oe, oc, eb, omit, dep, wd) is None:
+                rec.count("cache:rebuild-over-the-outputs-of-an-earlier-build")
+            with open(src, "wb") as fh:
+                fh.write(root.bytes)
     exc = run_cache(route, src, oe, oc, eb, omit, dep, wd)
     rec.count("cache:route:" + route)
     rec.count("cache:omit:" + ("none" if omit is None else "all" if omit == ".*" else "other"))
@@ -379,6 +391,26 @@ def run_case(rec, case):
         case_cache(rec, case)
     else:
         case_single(rec, case)
+
+
+def other_payload_bytes(E):
+    """the same envelope hierarchy with every integrated payload (string-keyed byte string that is not an envelope)
+    replaced by other bytes of the same length; manifests, wrappers and all lengths stay as they are"""
+    try:
+        env = envmodel.Env(E)
+    except envmodel.EnvelopeError:
+        return E
+    out = []
+    for k, node in env.members:
+        if isinstance(k, str) and node.mt == 2:
+            try:
+                envmodel.Env(node.val)
+                out.append((k, other_payload_bytes(node.val)))
+            except envmodel.EnvelopeError:
+                out.append((k, bytes(b ^ 0x5A for b in node.val)))
+        else:
+            out.append((k, mcbor.Raw(node.raw)))
+    return mcbor.enc(mcbor.Tag(107, mcbor.Pairs(out)))
 
 
 def make_case(seed, n):
